@@ -63,7 +63,7 @@ class Prop(BaseProp):
                    "functions of hidden members as plain functions) is not asserted"]
     HEADLINE = ["combos_run", "documented_entries_compared", "hidden_undocumented_checked", "class_flag_off_combos"]
 
-    MODS = {"quick": 24, "thorough": 60}
+    MODS = {"quick": 60, "thorough": 150}
     BLOCKS = {"quick": 4, "thorough": 16}
 
     def n_cases(self, tier):
